@@ -20,7 +20,7 @@ MANIFEST = {
 }
 THEOREMS = ['C07.firewall_tables_ok', 'C07.firewall_total', 'C07.plugin_hooks_wrapped', 'C07.feedMsg_total',
             'C07.callbacks_all_run', 'C07.outFilter_exception_keeps_message', 'C07.takeMsg_total',
-            'C07.no_escape', 'C07.read_never_raises', 'C07.driver_never_removed', 'C07.later_ping_answered',
+            'C07.isupport_never_deafens', 'C07.no_escape', 'C07.read_never_raises', 'C07.driver_never_removed', 'C07.later_ping_answered',
             'C07.liveB_pingAnswered']
 TRUSTED = ['Lean 4.33.0 kernel; axioms ⊆ {propext, Classical.choice, Quot.sound}',
            'harness/extractors/firewall.py (the __firewalled__ maps, except-clause classes, encode errors= → Gen/Firewall.lean)',
@@ -272,6 +272,43 @@ def l2_cases(b, r, n):
         lines.append('take\t%s' % (','.join(outf) or '~'))
     return cases, lines
 
+# ---------------------------------------------------------------- L2b: ISUPPORT tokens vs the per-message channel test
+def isup_cases(b, r, n):
+    irc = b.irclib.Irc('test')
+    if irc in b.world.ircs: b.world.ircs.remove(irc)
+    im = b.ircmsgs
+    cases = []; lines = []
+    names = ['CHANTYPES', 'chantypes', 'ChanTypes', 'CHANNELLEN', 'channellen', 'PREFIX', 'STATUSMSG', 'NICKLEN', 'X']
+    vals = ['', '#', '#&', '+', 'x', '5', '0', '-1', ' 7 ', '1_0', '٣', '50', '200', '=', 'a=b']
+    xs = ['#chan', 'nick', '', '#a,b', '&x', '#' + 'a' * 60, ' #c', '#c d', '+#c', '#\x07', '!x', '#é', '#c\n', '5']
+    for _ in range(n):
+        toks = []
+        for _ in range(r.randint(0, 4)):
+            nm = r.choice(names)
+            toks.append(nm if r.random() < 0.35 else nm + '=' + r.choice(vals))
+        x = r.choice(xs)
+        irc.state.supported = type(irc.state.supported)()
+        irc.state.do005(irc, im.IrcMsg(command='005', args=('test',) + tuple(toks) + ('are supported',)))
+        try:
+            out = 'true' if irc.isChannel(x) else 'false'
+        except Exception as e:
+            out = 'raise:' + type(e).__name__
+        ints = []
+        for t in toks:
+            try:
+                ints.append(str(int(t.split('=', 1)[1])) if '=' in t else 'x')
+            except ValueError:
+                ints.append('x')
+        ok = not out.startswith('raise')
+        t_ = set()
+        if any('=' not in t for t in toks): t_.add('isupport-valueless')
+        if any(t.lower().startswith('channellen=') for t in toks): t_.add('isupport-channellen')
+        if any(t.lower().startswith('chantypes') for t in toks): t_.add('isupport-chantypes')
+        cases.append(Case({'isup': toks, 'x': x}, impl=out, oracle_ok=ok, kind='L2-isupport', tags=tuple(sorted(t_)) or ('isupport-none',),
+                          oracle_msg='' if ok else 'after 005 %r, Irc.isChannel(%r) raises %s: _tagMsg then fails for every incoming message' % (toks, x, out[6:])))
+        lines.append('isup\t%s\t%s\t%s' % (wire.enc_list(toks), wire.enc_list(ints), wire.enc(x)))
+    return cases, lines
+
 # ---------------------------------------------------------------- L3: hostile streams through the real driver
 class Rig3(c11.Rig):
     def __init__(self):
@@ -512,6 +549,7 @@ def explore(rig, stream, n1, n2, n3):
     c, l = l1_firewall_cases(r, n1); groups.append((c, l, None))
     c, l = l1_meta_cases(r, n1 // 2); groups.append((c, l, canon_meta))
     c, l = l2_cases(rig.b, r, n2); groups.append((c, l, lambda o: 'None' if o == 'dropped' else o))
+    c, l = isup_cases(rig.b, r, n2); groups.append((c, l, None))
     c3, ml, spans = l3_cases(rig, r, n3)
     return groups, (c3, ml, spans)
 
